@@ -204,7 +204,7 @@ def run_shard(ctx, shard, acc):
                     acc.fail(f)
             acc.case({'element': run.el, 'ops': run.ops}, 'rejection' in run.flags, len(run.ops))
 
-        hyp_search(acc, body, mix(ctx.seed, 'C12b', shard['index']), ctx.budget(700, 15000))
+        hyp_search(acc, body, mix(ctx.seed, 'C12b', shard['index']), ctx.budget(700, 6000))
         return
 
     # perm-random: larger unique multisets from random accepted words
@@ -224,4 +224,4 @@ def run_shard(ctx, shard, acc):
         if f:
             acc.fail(f)
 
-    hyp_search(acc, body, mix(ctx.seed, 'C12p', shard['index']), ctx.budget(600, 12000))
+    hyp_search(acc, body, mix(ctx.seed, 'C12p', shard['index']), ctx.budget(600, 6000))
